@@ -18,6 +18,12 @@
 (*             while s2 or a ghost caller probes every protected service;  *)
 (*   "ids"     (C32) two activated sessions create and delete              *)
 (*             subscriptions and items, including unknown and foreign ids; *)
+(*   "batch"   (C32) s1 owns subscriptions 1, 2 (items 1, 2), s2 owns      *)
+(*             subscription 3 (item 3); s2 sends ONE DeleteSubscriptions / *)
+(*             DeleteMonitoredItems / SetMonitoringMode request with       *)
+(*             MaxProbes distinct ids: every order of own / foreign /      *)
+(*             never-issued ids.  The model applies the ids one after the  *)
+(*             other (the results array of the service is per id);         *)
 (*   "freshsub" / "freshitem" (C32) every successful create/delete history *)
 (*             of one session (the id-freshness patterns, exhaustively).   *)
 (***************************************************************************)
@@ -55,6 +61,19 @@ GInit ==
              /\ subs = << >> /\ items = << >> /\ nsub = 0 /\ nitem = 0
              /\ hist = << Op("CreateSession", "s1", "", 0, 0, 0), Op("Activate", "s1", "", 0, 0, 0),
                           Op("CreateSession", "s2", "", 0, 0, 0), Op("Activate", "s2", "", 0, 0, 0) >>
+        [] Focus = "batch" ->
+             /\ sess = [s \in Sessions |-> "activated"]
+             /\ subs = (1 :> "s1") @@ (2 :> "s1") @@ (3 :> "s2")
+             /\ items = (1 :> [sub |-> 1, owner |-> "s1", mode |-> "initial"]) @@
+                        (2 :> [sub |-> 2, owner |-> "s1", mode |-> "initial"]) @@
+                        (3 :> [sub |-> 3, owner |-> "s2", mode |-> "initial"])
+             /\ nsub = 3 /\ nitem = 3
+             /\ hist = << Op("CreateSession", "s1", "", 0, 0, 0), Op("Activate", "s1", "", 0, 0, 0),
+                          Op("CreateSession", "s2", "", 0, 0, 0), Op("Activate", "s2", "", 0, 0, 0),
+                          Op("CreateSub", "s1", "", 0, 0, 0), Op("CreateSub", "s1", "", 0, 0, 0),
+                          Op("CreateSub", "s2", "", 0, 0, 0),
+                          Op("CreateItem", "s1", "n", 0, 1, 0), Op("CreateItem", "s1", "n", 0, 2, 0),
+                          Op("CreateItem", "s2", "n", 0, 3, 0) >>
         [] Focus \in {"freshsub", "freshitem"} ->
              \* one session owning one subscription: every create/delete history of the bounded length
              /\ sess = [s \in Sessions |-> "activated"]
@@ -125,6 +144,13 @@ GNext ==
         [] Focus = "ids" ->
              /\ \E c \in Sessions : GCreateSub(c) \/ GDeleteSub(c) \/ GCreateItem(c) \/ GSetMode(c) \/ GDeleteItem(c)
              /\ probes' = probes
+        [] Focus = "batch" ->
+             \* the ids of one request: same service, distinct targets
+             /\ probes < MaxProbes
+             /\ GDeleteSub("s2") \/ GSetMode("s2") \/ GDeleteItem("s2")
+             /\ probes > 0 => hist'[Len(hist')].op = hist[Len(hist)].op
+             /\ \A j \in (Len(hist) - probes + 1)..Len(hist) : hist[j].k # hist'[Len(hist')].k
+             /\ probes' = probes + 1
         [] Focus = "freshsub" ->
              /\ (GCreateSub("s1") \/ GDeleteSub("s1")) /\ last'.res = "ok" /\ probes' = probes
         [] Focus = "freshitem" ->
@@ -136,8 +162,10 @@ GSpec == GInit /\ [][GNext]_gvars
 \* the contract invariants also hold along every generated script
 Terminal == CASE Focus = "access"  -> Len(hist) = MaxOps
               [] Focus = "session" -> probes = MaxProbes /\ last.svc \in Protected /\ last.c # "s1"
+              [] Focus = "batch" -> probes = MaxProbes
               [] Focus \in {"ids", "freshsub", "freshitem"} -> Len(hist) = MaxOps
-Script == [focus |-> Focus, ops |-> hist,
+\* batch = number of trailing requests of the script that travel in ONE service request
+Script == [focus |-> Focus, ops |-> hist, batch |-> IF Focus = "batch" THEN probes ELSE 0,
            al |-> nodes[CHOOSE n \in NodeSet : TRUE].al, ual |-> nodes[CHOOSE n \in NodeSet : TRUE].ual]
 InvEmit == Terminal => PrintT("BEH " \o ToJson(Script))
 \* hist and counters are observation only
